@@ -474,6 +474,56 @@ fn cli_pass(rep: &Report, n: usize, seed: u64) {
     rep.count("CLI programs with print statements", n as u64);
 }
 
+/// print statements at the edges of the 1 MiB space: whatever the assembler lets through, the printer must answer
+fn print_boundaries(rep: &Report) {
+    let mb: u64 = 1 << 20;
+    let mut stmts: Vec<String> = Vec::new();
+    for a in [0u64, 1, 15, 16, mb / 2, mb - 17, mb - 16, mb - 2, mb - 1, mb, mb + 1] {
+        for n in [0u64, 1, 2, 15, 16, 17, mb - 1, mb, mb + 1] {
+            // sums around the end of memory and a few ordinary ones
+            let s = a % mb + n % mb;
+            if s + 2 >= mb && s <= mb + 2 || (a < 32 && n < 32) {
+                stmts.push(format!("print mem {} : {}", a, n));
+                stmts.push(format!("PRINT MEM 0x{:x}:0b{:b}", a, n));
+            }
+        }
+        for b in [0u64, mb - 1, mb, mb + 1] {
+            stmts.push(format!("print mem {} -> {}", a, b));
+        }
+    }
+    for n in [0u64, 1, mb - 17, mb - 16, mb - 15, mb - 1, mb, mb + 1] {
+        stmts.push(format!("print mem : {}", n));
+    }
+    stmts.sort();
+    stmts.dedup();
+    let n = stmts.len();
+    par_for(n, 1, |i| {
+        for ds in [0u32, 0xFFFF] {
+            let src = format!("x: db 7\nstart:\nmov ax, {}\nmov ds, ax\n{}\nmov bx, 1\n", ds, stmts[i]);
+            let out = run_cli(src.as_bytes(), &CliOpts::default());
+            rep.eval(1);
+            if out.timed_out {
+                rep.inconclusive("cli watchdog");
+                continue;
+            }
+            let parsed = parse_records(&out.stdout);
+            let plain = String::from_utf8_lossy(&parsed.plain).to_string();
+            let accepted = !parsed.recs.is_empty();
+            rep.distinct_str(&format!("print-edge|{}|{}", i, accepted));
+            if accepted && (plain.contains("Internal Error") || !out.clean_exit()) {
+                let form = if stmts[i].contains("->") { "range" } else if stmts[i].to_lowercase().contains("mem :") { "ds-relative" } else { "start-length" };
+                rep.fail(Failure {
+                    sig: format!("cli:internal-error:printer:edge:{}", form),
+                    what: "C10 CLI: a print statement the assembler accepts is not answered by the printer (Internal Error path / abort)".into(),
+                    witness: format!("{{\"kind\": \"cli\", \"source\": {}, \"stdin\": \"\", \"stdout\": {}, \"status\": {}}}", json_str(&src), json_str(&plain[..plain.len().min(300)]), json_str(&out.status_str())),
+                    core_item: Some(format!("{}|{}", stmts[i], ds)),
+                });
+            }
+        }
+    });
+    rep.count("print statements at the edges of memory (each with DS=0 and DS=0xFFFF)", n as u64);
+}
+
 fn grammar_terminals() -> Vec<String> {
     let repo = std::env::var("VERIF_REPO").unwrap_or_else(|_| "/repo".to_string());
     let text = std::fs::read_to_string(format!("{}/src/lib/preprocessor/preprocessor.lalrpop", repo)).unwrap_or_default();
@@ -510,6 +560,7 @@ pub fn run(rep: &Report) {
     let t = rep.thorough();
     random_programs(rep, if t { 100_000 } else { 3000 }, rep.seed);
     cli_pass(rep, if t { 4000 } else { 150 }, rep.seed);
+    print_boundaries(rep);
     // terminal coverage
     let terms = grammar_terminals();
     let w = words.lock().unwrap();
